@@ -1088,18 +1088,8 @@ fn hyphen<'s>(input: &mut &'s str) -> PResult<Option<BoundSet>, SemverParseError
         let _ = space1(input)?;
         let upper = partial_version(input)?;
         let upper = match upper {
-            Partial {
-                major: None,
-                minor: None,
-                patch: None,
-                ..
-            } => Predicate::Excluding(Version {
-                major: 0,
-                minor: 0,
-                patch: 0,
-                pre_release: vec![Identifier::Numeric(0)],
-                build: vec![],
-            }),
+            // `1 - x` is `>=1.0.0`: a wildcard puts no upper limit.
+            Partial { major: None, .. } => Predicate::Unbounded,
             Partial {
                 major: Some(major),
                 minor: None,
@@ -1131,6 +1121,8 @@ fn hyphen<'s>(input: &mut &'s str) -> PResult<Option<BoundSet>, SemverParseError
                 Bound::Lower(Predicate::Including(lower.into())),
                 Bound::Upper(upper),
             )
+        } else if upper == Predicate::Unbounded {
+            BoundSet::at_least(Predicate::Including((0, 0, 0).into()))
         } else {
             BoundSet::at_most(upper)
         };
